@@ -739,6 +739,6 @@ theorem inv_initState (builtins : List (String × Nat)) (disabled : List String)
   intro t ht
   simp [initState] at ht
   subst ht
-  exact storeOK_nil
+  exact ⟨storeOK_nil, Nat.le_refl _⟩
 
 end UgoVerif.Compile
